@@ -226,6 +226,14 @@ theorem fmLine_at {conv : Conv} {gR gI gQ : Bytes → Res Nat} {gC : Bytes → R
       have hf : lend + 1 - (lend - o.rest.length) = o.rest.length + 1 := by have := ar.2; omega
       rw [hf, fmFeats_at hL ht _ _ _ _ ar]
 
+theorem fmLine_lone {conv : Conv} {mem : Bytes} {lbegin lend : Nat} {e : UInt8}
+    (h : At mem lbegin lend [e]) (he : isEolB e = true) (gR gI : Bytes → Res Nat) :
+    fmLine Fixes.repaired conv mem lbegin lend = fmLineS gR gI [e] := by
+  have hd : ([e] : Bytes).dropWhile notDigitCharB = [] := by simp [List.dropWhile, eol_notDigitChar e he]
+  have hp := parsePair_r0 Fixes.repaired conv.real conv.real h hd
+  unfold fmLine fmLineS
+  simp [hp, hd, pairS, bind, Except.bind, pure, Except.pure, Gen.Parse.fmEmptyLine]
+
 def fmRec (l : FmLine) : LineRec :=
   { label := some l.label, weight := l.weight, qid := none, fields := l.feats.map (·.1),
     idx := l.feats.map (·.2.1), vals := l.feats.filterMap (·.2.2) }
@@ -265,15 +273,18 @@ theorem build_field_length (recs : List LineRec) (h : ∀ r ∈ recs, r.fields.l
 
 theorem fm_block_eq_at {conv : Conv} {gR gI gQ : Bytes → Res Nat} {gC : Bytes → Res (Nat × Nat)}
     (hL : conv.LocalWith gR gI gQ gC) (iw mode : Nat) {mem : Bytes} {a b : Nat} {t : Bytes}
-    (hAt : At mem a b t) (hT : Term mem b) (hb : (codeLines t).length + 2 < 2 ^ 64) :
+    (hAt : At mem a b t) (hT : TermOr mem b t) (hb : (codeLines t).length + 2 < 2 ^ 64) :
     fmRowsAt Fixes.repaired conv iw mode mem a b =
       ((codeLines t).mapM (fmRecS gR gI iw mode)).bind fun outs => rowsOf (build (outs.filterMap id)) := by
   have hpred : (fun b : UInt8 => Gen.Parse.fmNotEol b.toNat) = notEolB := by
     funext b; simp [notEolB, fmNotEol_eq]
   have hloop := lineLoop_spec (line := fun lbegin lend => fmLine Fixes.repaired conv mem lbegin lend)
-    (lineS := fmLineS gR gI) (push := fmPush) hT
-    (fun p q L R hL' _ _ hT => fmLine_at hL hL' hT)
-    (b + 1 - a) a t {} hAt (by have := hAt.2; omega)
+    (lineS := fmLineS gR gI) (push := fmPush)
+    (fun p q L R hL' _ _ hT => by
+      rcases hT with hT | ⟨e, rfl, he⟩
+      · exact fmLine_at hL hL' hT
+      · exact fmLine_lone hL' he gR gI)
+    (b + 1 - a) a t {} hAt (by have := hAt.2; omega) hT
   have hrec : fmRecS gR gI iw mode = fun L => (fmLineS gR gI L).map
       (Option.map fun l => if mode > 0 then decRecBoth iw (fmRec l) else fmRec l) := by
     funext L; rfl
@@ -311,7 +322,7 @@ theorem fm_block_eq {conv : Conv} {gR gI gQ : Bytes → Res Nat} {gC : Bytes →
     (hL : conv.LocalWith gR gI gQ gC) (iw mode : Nat) (t : Bytes) (hb : (codeLines t).length + 2 < 2 ^ 64) :
     fmRows Fixes.repaired conv iw mode t =
       ((codeLines t).mapM (fmRecS gR gI iw mode)).bind fun outs => rowsOf (build (outs.filterMap id)) :=
-  fm_block_eq_at hL iw mode (At.whole t [0]) (term_whole t) hb
+  fm_block_eq_at hL iw mode (At.whole t [0]) (Or.inl (term_whole t)) hb
 
 theorem fmLineS_nil (gR gI : Bytes → Res Nat) : fmLineS gR gI [] = .ok none := by
   simp [fmLineS, pairS, bind, Except.bind, pure, Except.pure, Gen.Parse.fmEmptyLine]
